@@ -146,7 +146,8 @@ class CallSite:
     node: ast.Call
     targets: List[FuncDef]  # resolved repo callees (may be several for dynamic dispatch)
     external: Optional[str]  # dotted name of an external callee if resolved to one
-    how: str  # 'direct' | 'self' | 'class' | 'ctor' | 'annot' | 'byname' | 'transform' | 'unresolved' | 'external'
+    how: str  # 'direct' | 'self' | 'class' | 'ctor' | 'annot' | 'byname' | 'transform' | 'unresolved' | 'external' | 'partial' | 'ref'
+    arg_offset: int = 0  # 1 for functools.partial(f, ...): the callee's arguments start at args[1]
 
     @property
     def line(self) -> int:
@@ -380,6 +381,24 @@ class SrcModel:
             c = self.classes.get(cn)
             if c is not None and name in c.methods:
                 return c.methods[name]
+        return None
+
+    def class_member(self, cls: ClassDef, name: str):
+        """First definition of `name` along the MRO: ('method', FuncDef) | ('attr', value expr, owner ClassDef) | None."""
+        for cn in self.mro(cls.qualname):
+            c = self.classes.get(cn)
+            if c is None:
+                continue
+            in_m, in_a = name in c.methods, name in c.assigns
+            if in_m and in_a:
+                # the later statement in the class body wins
+                if c.methods[name].node.lineno > c.assigns[name].lineno:
+                    return ("method", c.methods[name])
+                return ("attr", c.assigns[name], c)
+            if in_m:
+                return ("method", c.methods[name])
+            if in_a:
+                return ("attr", c.assigns[name], c)
         return None
 
     def class_attr(self, cls: ClassDef, name: str) -> Optional[ast.expr]:
@@ -648,6 +667,17 @@ class SrcModel:
                         if cand and not f.attr.startswith("__"):
                             targets, how = cand, "byname"
             sites.append(CallSite(caller=fn, node=n, targets=targets, external=external, how=how))
+            # functools.partial(f, ...) and function objects handed to map()/gather helpers are calls in waiting
+            if external in ("functools.partial", "functools.partialmethod") and n.args:
+                res = self._lookup_local(fn, n.args[0].id) if isinstance(n.args[0], ast.Name) else self.resolve_expr(fn.module, n.args[0])
+                if isinstance(res, FuncDef):
+                    sites.append(CallSite(caller=fn, node=n, targets=[res], external=None, how="partial", arg_offset=1))
+            else:
+                for a in [*n.args, *[k.value for k in n.keywords]]:
+                    if isinstance(a, ast.Name):
+                        res = self._lookup_local(fn, a.id)
+                        if isinstance(res, FuncDef) and a.id not in fn.params:
+                            sites.append(CallSite(caller=fn, node=n, targets=[res], external=None, how="ref"))
         sites.sort(key=lambda s: (s.node.lineno, s.node.col_offset))
         return sites
 
